@@ -274,6 +274,9 @@ func (w *World) readDirectives(pkg *ssa.Package, f *ast.File) error {
 				}
 				w.Models[pos[0]] = fn
 				w.ModelPkg[pos[0]] = pkg.Pkg.Path()
+				if len(pos) > 1 && pos[1] == "global" {
+					w.ModelPkg[pos[0]] = ""
+				}
 			case "maypanic":
 				if len(pos) < 1 {
 					return fmt.Errorf("%s: maypanic needs a function", where)
